@@ -51,8 +51,9 @@ class FullRun:
         self.napplied = 0
 
     # ---------------------------------------------------------------- recording
-    def mark(self, ev):
-        self.log.append(("mark", ev, self._known(), self._pending()))
+    def mark(self, ev, firing=0):
+        # `firing`: this event IS a producer timer firing; that timer was still armed when the previous event ended
+        self.log.append(("mark", ev, self._known(), self._pending() + firing))
 
     def act(self, a):
         self.log.append(("act", a))
@@ -94,7 +95,7 @@ class FullRun:
             if tag is not None and tag[0] != "tick":
                 def fired(*aa, **kk):
                     self.mark({"a": "MetaRetry", "sid": tag[1], "x": 0, "res": []} if tag[0] == "metaretry"
-                              else {"a": "RetryFire", "sid": 0, "x": 0, "res": []})
+                              else {"a": "RetryFire", "sid": 0, "x": 0, "res": []}, firing=1)
                     return fn(*aa, **kk)
                 dc = orig(delay, fired, *a, **kw)
                 self.act(["timer", int(round(delay * 1e6))])
